@@ -4,6 +4,7 @@ CONSTANTS
   Hist = TRUE
   ClearBeforeCopy = FALSE
   CopyThroughSet = FALSE
+  AliasedFirstAssignment = FALSE
   UnhookedExtend = FALSE
 SPECIFICATION Spec
 INVARIANT Emit
